@@ -170,6 +170,11 @@ def check_generated(case, shard, mon, rng):
     if mask_kind in ("poi", "both"):
         poi_val = case["poi_val"]
         shard.covered("masks", f"POI fixed at {poi_val}" + (" together with a fixed nuisance" if mask_kind == "both" else ""))
+    if poi_val is not None and case["seed"] % 2 == 0:
+        # the caller's mask already flags the POI (a mask reused from an earlier conditional fit), its starting value is
+        # still the old one: the fixed-POI fit must hold the POI at the value supplied NOW
+        fixed[poi] = True
+        shard.covered("masks", "POI already flagged fixed in the caller's mask, starting value different from the tested one")
     grads = [False] + ([True] if pyhf.tensorlib.name != "numpy" else [])
     mon.context = {"spec": case["spec"], "mask": mask_kind, "poi_val": poi_val}
     # how far is the fixed-POI hypothesis from the data?  (largest per-bin tension at the initial nuisance values)
